@@ -269,6 +269,7 @@ func optsOf(in map[string]any) *gtfs.ParseRealtimeOptions {
 type rtCanon struct {
 	loc *time.Location // the zone every time must be expressed in
 	bad []string       // observations that contradict "same instant in the configured zone"
+	zt  *zoneTab       // when the case carries the zone's table: print the instant of every start date (the model predicts it)
 }
 
 // sameZone: t is expressed in the configured zone (same name, and the same offset and abbreviation at that instant;
@@ -300,6 +301,9 @@ func civilDays(y int, m time.Month, d int) int64 {
 func (c *rtCanon) tripID(id gtfs.TripID) map[string]any {
 	m := map[string]any{"id": bstr(id.ID), "route": bstr(id.RouteID), "dir": int(id.DirectionID), "hasStartTime": id.HasStartTime,
 		"startTime": int64(id.StartTime / time.Second), "hasStartDate": id.HasStartDate, "startDate": 0, "sr": int(id.ScheduleRelationship)}
+	if c.zt != nil {
+		m["startDateUnix"] = nil
+	}
 	if id.StartTime%time.Second != 0 {
 		c.bad = append(c.bad, "start time is not a whole number of seconds")
 	}
@@ -315,6 +319,9 @@ func (c *rtCanon) tripID(id gtfs.TripID) map[string]any {
 			c.bad = append(c.bad, fmt.Sprintf("start date %v is not local midnight", t))
 		}
 		m["startDate"] = civilDays(y, mo, d)
+		if c.zt != nil {
+			m["startDateUnix"] = c.zt.dateInstant(id.StartDate, civilDays(y, mo, d))
+		}
 	} else if !id.StartDate.IsZero() {
 		c.bad = append(c.bad, "start date fabricated although absent")
 	}
@@ -470,5 +477,8 @@ func canonOf(in map[string]any, r *gtfs.Realtime) (map[string]any, []string) {
 		loc = time.UTC
 	}
 	c := &rtCanon{loc: loc}
+	if in["zoneTable"] != nil {
+		c.zt = zoneTabOf(loc)
+	}
 	return c.result(r), c.bad
 }
